@@ -86,6 +86,180 @@ def sub_root_oracle(ctx: Ctx, n: int) -> None:
             t.close()
 
 
+# ------------------------------------------------------------------------------------------
+# blanks in .gitignore lines
+
+LEAD = ["", "", " ", "  ", "\t"]          # blanks in front of a pattern belong to the pattern (git does not trim them)
+TRAIL = ["", "", " ", "  ", "\\ "]        # trailing spaces are dropped by git unless the last one is quoted with a backslash
+PRE = ["", "", " ", "  ", "\t"]           # the same decorations on the names of files and directories in the tree,
+POST = ["", "", "", " "]                  # so that a pattern with blanks has something to match (and something to miss)
+
+
+def _blank_line(rng, t, entries: list[Path]) -> tuple[Path, str]:
+    """one .gitignore line about an entry of the tree, spelt with blanks: (directory of the .gitignore, line).
+    Kept away from (see the report of the strengthening round; clean flowmark / pathspec differ from git there):
+      * (an indented '#' was a third case: flowmark read ' #x.md' as a comment — repaired, see C18-indented-hash-is-a-pattern);
+      * a trailing tab: git keeps it in the pattern, pathspec trims it;
+      * a quoted blank followed by further spaces ('a.md\\  ') and a lone trailing backslash: pathspec raises."""
+    p = rng.choice(entries)
+    is_dir = p.is_dir()
+    ups = [q for q in [p.parent, *p.parent.parents] if q == t.root or t.root in q.parents]
+    home = rng.choice(ups)
+    rel = p.relative_to(home).as_posix()
+    name = p.name
+    r = rng.random()
+    if r < 0.35:
+        core = name                                               # basename, at any depth
+    elif r < 0.55:
+        core = "/" + rel                                          # anchored
+    elif r < 0.7:
+        core = rel                                                # multi-segment where the entry lies deeper
+    elif r < 0.85:
+        stem = name.strip(" \t")
+        core = name.replace(stem, "*" + stem[-3:] if len(stem) > 3 else stem[:1] + "*", 1)      # wildcard, blanks kept
+    else:
+        core = name.strip(" \t")                                  # the undecorated name: must not match the decorated one
+    if is_dir and rng.random() < 0.5:
+        core += "/"
+    neg = "!" if (not is_dir and rng.random() < 0.2) else ""      # negations of files only (directory negations: known pathspec quirk)
+    lead = rng.choice(LEAD)
+    if rng.random() < 0.15:
+        neg, lead = "", rng.choice([" ", "  "]) + "!"             # ' !x' is a pattern beginning with a blank, not a negation
+    trail = rng.choice(TRAIL)
+    if core.endswith(" ") and rng.random() < 0.7:
+        core, trail = core[:-1], "\\ "                             # the way to name a trailing blank
+    line = lead + neg + core + trail
+    if line.endswith("\\") or not line.strip():
+        line = name
+    return home, line
+
+
+def blank_tree(rng):
+    """a random tree without ignore files, some entries doubled by a sibling whose name carries leading / trailing blanks,
+    and .gitignore files made of ordinary file-level lines mixed with lines spelt with blanks"""
+    t = fstree.gen_tree(rng, git=False, links=False, toolignore=False)
+    if not t.files:
+        (t.root / "a.md").write_text("x")
+        t.files.append(t.root / "a.md")
+    for p in rng.sample(t.files + t.dirs, min(len(t.files) + len(t.dirs), rng.randint(1, 4))):
+        q = p.parent / (rng.choice(PRE) + p.name + rng.choice(POST))
+        if q.exists():
+            continue
+        if p.is_dir():
+            q.mkdir()
+            (q / rng.choice(["a.md", "keep.md", " a.md"])).write_text("x")
+            t.files.append(next(q.iterdir()))
+            t.dirs.append(q)
+        else:
+            q.write_text("x")
+            t.files.append(q)
+    entries = t.files + t.dirs
+    lines: dict[Path, list[str]] = {}
+    for _ in range(rng.randint(1, 5)):
+        if rng.random() < 0.3:
+            f = rng.choice(t.files)
+            home, line = rng.choice([t.root, f.parent]), rng.choice(["*.md", f.name, "*" + f.suffix, "!" + f.name, "# c", "", "   ", " "])
+        else:
+            home, line = _blank_line(rng, t, entries)
+        lines.setdefault(home, []).append(line)
+    for home, ls in lines.items():
+        (home / ".gitignore").write_text("\n".join(ls) + "\n")
+    return t
+
+
+def blanks_oracle(ctx: Ctx, n: int) -> None:
+    """blanks in a .gitignore line have git's meaning; no attribution to pathspec here: these trees hold none of the
+    directory-negation / 'dir/**' shapes of the known finding, so any disagreement with git is reported"""
+    rng = ctx.rng
+    for i in range(n):
+        t = blank_tree(rng)
+        try:
+            case = {"tree": [l for l in resolvetie.listing(t) if "/.git/" not in l]}
+            g = fstree.git_listing(t.root)
+            every = {str(p) for p in t.root.rglob("*") if p.is_file() and "/.git/" not in str(p)}
+            ctx.count(["git-blanks", case["tree"]], nontrivial=g != every, sample=False)
+            ctx.bump("git-blank-line-trees")
+            ctx.bump("git-blank-line-trees-with-an-ignored-file", int(g != every))
+            gi = [l for f in t.root.rglob(".gitignore") for l in f.read_text().split("\n")]
+            ctx.bump("git-blank-lines: leading blank", sum(l[:1] in (" ", "\t") and bool(l.strip()) for l in gi))
+            ctx.bump("git-blank-lines: quoted trailing blank", sum(l.endswith("\\ ") for l in gi))
+            ctx.bump("git-blank-lines: unquoted trailing blank", sum(l.endswith(" ") and not l.endswith("\\ ") and bool(l.strip()) for l in gi))
+            try:
+                real = set(fstree.real_resolve(ONLY_GIT, [str(t.root)]))
+                off = set(fstree.real_resolve(dict(ONLY_GIT, respect_gitignore=False), [str(t.root)]))
+            except Exception as e:
+                ctx.fail("AGREES (blanks in .gitignore lines): traversal raises on an ignore file that git reads without complaint",
+                         case, f"{type(e).__name__}: {e}")
+                continue
+            if real != g:
+                ctx.fail("AGREES (blanks in .gitignore lines): the resolver and git disagree about which files are ignored", case,
+                         {"listed-but-git-ignores": sorted(x.replace(str(t.root), "") for x in real - g)[:8],
+                          "git-lists-but-missing": sorted(x.replace(str(t.root), "") for x in g - real)[:8]})
+            if off != every:
+                ctx.fail("OFF (blanks in .gitignore lines): with respect_gitignore off the listing is not simply every file", case,
+                         {"diff": sorted(x.replace(str(t.root), "") for x in off ^ every)[:8]})
+        finally:
+            t.close()
+
+
+# ------------------------------------------------------------------------------------------
+# other spellings of the traversal root
+
+def root_spellings(rng, t, d: Path) -> list[tuple[str, str, str]]:
+    """(label, argument, working directory): ways to name directory d of the tree that the file system treats as the same place"""
+    import os
+    rel = d.relative_to(t.root)
+    ln_root, ln_outer, ln_rel = t.base / "ln-root", t.base / "ln-outer", t.base / "ln-rel"
+    if not ln_root.is_symlink():
+        ln_root.symlink_to(t.root, target_is_directory=True)                    # absolute link to the root
+        ln_outer.symlink_to(t.root.parent, target_is_directory=True)            # link to the directory above the root
+        ln_rel.symlink_to(Path("outer") / "root", target_is_directory=True)     # relative link
+    out = [("link to the root", str(ln_root / rel), str(t.base)),
+           ("below a linked parent directory", str(ln_outer / "root" / rel), str(t.base)),
+           ("relative link", str(ln_rel / rel), str(t.base)),
+           ("link, relative argument", str(Path("ln-root") / rel), str(t.base)),
+           ("relative argument", os.path.relpath(d, t.base), str(t.base)),
+           ("'.'", ".", str(d)),
+           ("'..' in the argument", str(t.root.parent / ".." / "outer" / "root" / rel), str(t.base)),
+           ("trailing slash", str(d) + "/", str(t.base)),
+           ("working directory entered through a link, '.'", ".", str(ln_root / rel))]
+    if d != t.root:
+        ln_d = t.base / "ln-dir"
+        if ln_d.is_symlink():
+            ln_d.unlink()
+        ln_d.symlink_to(d, target_is_directory=True)
+        out.append(("link to a sub-directory", str(ln_d), str(t.base)))
+    return rng.sample(out, 4)
+
+
+def root_spelling_oracle(ctx: Ctx, n: int) -> None:
+    """the .gitignore files from the traversal root down decide, however the root is named: through a symbolic link, below a linked
+    directory, relative, with '..' — the listing is what git lists at that place (`git -C <link> ls-files` sees the same repository)"""
+    import os
+    rng = ctx.rng
+    for i in range(n):
+        t = fstree.gen_tree(rng, git=True, links=False, toolignore=False)
+        try:
+            d = t.root if (not t.dirs or rng.random() < 0.6) else rng.choice(t.dirs)
+            tree = [l for l in resolvetie.listing(t) if "/.git/" not in l]
+            g = {os.path.realpath(x) for x in fstree.git_listing(d)}
+            every = {os.path.realpath(p) for p in d.rglob("*") if p.is_file() and "/.git/" not in str(p)}
+            ctx.bump("git-root-spelling-trees")
+            for label, arg, wd in root_spellings(rng, t, d):
+                case = {"root": label, "arg": arg.replace(str(t.base), ""), "cwd": wd.replace(str(t.base), "") or "/", "tree": tree}
+                ctx.count(["git-root-spelling", label, tree], nontrivial=g != every, sample=False)
+                ctx.bump("git-root-spellings")
+                with fstree.cwd(wd):
+                    real = {os.path.realpath(x) for x in fstree.real_resolve(ONLY_GIT, [arg])}
+                    off = {os.path.realpath(x) for x in fstree.real_resolve(dict(ONLY_GIT, respect_gitignore=False), [arg])}
+                judge(ctx, f"AGREES (root named by: {label}): the resolver and git disagree about which files are ignored", case, d, real, g)
+                if off != every:
+                    ctx.fail(f"OFF (root named by: {label}): with respect_gitignore off the listing is not simply every file", case,
+                             {"diff": sorted(x.replace(str(t.base), "") for x in off ^ every)[:8]})
+        finally:
+            t.close()
+
+
 def replay_findings(ctx: Ctx) -> None:
     from props import c17
     for fid, e in ctx.kf.items():
@@ -94,7 +268,10 @@ def replay_findings(ctx: Ctx) -> None:
             continue
         t = c17.build(c)
         try:
-            real = set(fstree.real_resolve(ONLY_GIT, [str(t.root)]))
+            try:
+                real = set(fstree.real_resolve(ONLY_GIT, [str(t.root)]))
+            except Exception:                       # a traversal that raises where git lists files: still failing
+                real = None
             ctx.known_replay(fid, real != fstree.git_listing(t.root))
         finally:
             t.close()
@@ -107,9 +284,18 @@ def run(ctx: Ctx) -> None:
         ctx.guard("tie resolve", resolvetie.tie_resolve, ctx.scale(200, 4000), True)
     git_oracle(ctx, ctx.scale(300, 6000))
     sub_root_oracle(ctx, ctx.scale(80, 1500))
+    blanks_oracle(ctx, ctx.scale(80, 2500))
+    root_spelling_oracle(ctx, ctx.scale(30, 1200))
     ctx.rule("random trees with .gitignore files at every level, lines drawn from: basename, anchored, multi-segment, directory-only, "
              "*, **, ?, [..], negation, escaped '!', trailing space, comments, blank lines; compared with git ls-files -co "
              "--exclude-standard run in a fresh repository at the traversal root")
+    ctx.rule("trees whose file and directory names carry leading / trailing blanks, with .gitignore lines spelt with blanks: leading spaces "
+             "and tabs (part of the pattern), trailing spaces (dropped), a trailing space quoted with a backslash (kept), ' !x' (no negation), "
+             "blank-only lines — over basename, anchored, multi-segment, directory-only and wildcard patterns at every level; compared with git, "
+             "no attribution to pathspec")
+    ctx.rule("the traversal root named in other ways: through an absolute or relative symbolic link to it, below a linked parent directory, "
+             "by a link to a sub-directory, relative to the working directory, '.', with '..', with a trailing slash, from a working directory "
+             "entered through a link; each compared with git run at that directory")
     ctx.assume("what one pattern matches is pathspec's answer (a parameter of the model); its agreement with git is what the git oracle "
                "observes, not a theorem")
 
